@@ -628,6 +628,19 @@ def check_C14(tier, seed):
         return prs(d['impl']) != prs(d['model'])
     viol = [r for r in res if r['status'] in ('impl_crash', 'harness_error') or contents_differ(r) or
             any(b.split()[2] in ('C14', 'C02', 'C05', 'C09', 'C17', 'C10') for b in r.get('blames', []))]
+    # a C call that fails with ENOMEM behaves like the throwing C++ call: nothing changes, including the caller's
+    # iterator out-parameters (fault enumeration through the C interface, tie T3)
+    frng = random.Random(seed * 17 + 3)
+    fres = []
+    fbins = build_capi([1, 2])
+    with concurrent.futures.ThreadPoolExecutor(max_workers=16) as ex:
+        futs = [ex.submit(run_faults, fbins[lb], gen.gen_capi_script(frng.getrandbits(48), capi_cfg(lb), nops=frng.choice([30, 50])), 'capi_l%d' % lb,
+                          os.path.join(BUILD, 'cases_' + pid)) for lb in ([1, 2] * (6 if tier == 'quick' else 60))]
+        fres = [f.result() for f in futs]
+    for fr in fres:
+        for l in fr['bad']:
+            if 'out-parameter' in l or 'contents-changed' in l:
+                viol.append(dict(path=fr['path'], status='fault', blames=[], detail='C call failing with ENOMEM: ' + l[:400]))
     violations = 0
     lay_fails, lay_n = capi_layout_check()
     if lay_fails and not viol:
@@ -836,6 +849,23 @@ def t2_finding_sig(pid, tag, text):
         return 'noop-resize-returns-during-section'
     return None
 
+def lt_move_check():
+    """directed scenarios for locked_table move construction / move assignment / destruction (harness/lt_move.cc)"""
+    out = os.path.join(BUILD, 'lt_move')
+    r = subprocess.run(['g++', '-std=gnu++17', '-O1', '-g', '-I', REPO, '-DLIBCUCKOO_VERIF=1', os.path.join(V, 'harness', 'lt_move.cc'), '-o', out, '-lpthread'],
+                       capture_output=True, text=True)
+    if r.returncode != 0:
+        return ['harness/lt_move.cc no longer compiles against /repo: ' + r.stderr[-400:]], 0
+    try:
+        rr = subprocess.run([out], capture_output=True, text=True, timeout=60)
+    except subprocess.TimeoutExpired:
+        return ['locked_table move scenarios: the run did not finish within 60 s (a call spins on a lock that was never released)'], 0
+    lines = [l for l in rr.stdout.split('\n') if l.startswith('LTMOVE')]
+    fails = [l for l in lines if l.startswith('LTMOVE FAIL')]
+    if rr.returncode != 0 or not any(l.startswith('LTMOVE done') for l in lines):
+        fails.append('locked_table move scenarios: harness ended with status %s' % rr.returncode)
+    return fails, len(lines)
+
 def check_T2(pid, tier, seed):
     t0 = time.time()
     spec = T2_PROPS[pid]
@@ -947,6 +977,11 @@ def check_T2(pid, tier, seed):
                 else: viol.append((r, tag, text))
         if not r.get('replayed', True): unreplayed.append(r)
         if r.get('confirmed') is False: unconfirmed.append(r)
+    ltm_fails, ltm_n = lt_move_check() if pid in ('C04', 'C06') else ([], 0)
+    if ltm_fails:
+        pth = os.path.join(keep, 'lt_move.txt'); os.makedirs(keep, exist_ok=True)
+        open(pth, 'w').write('# harness/lt_move.cc (fixed scenarios, no script)\n# run: g++ -std=gnu++17 -O1 -I /repo -DLIBCUCKOO_VERIF=1 harness/lt_move.cc -o lt_move -lpthread && ./lt_move\n' + '\n'.join('# ' + l for l in ltm_fails) + '\n')
+        viol.append((dict(path=pth, problems=[]), 'C04', 'locked_table move / destruction: ' + ltm_fails[0]))
     for r in seq4_res:
         if r['status'] == 'impl_crash' and 'timeout' in str(r.get('detail')):
             r2 = dict(r); r2['problems'] = [('C04', 'sequential script: an operation did not return (the run was stopped after 60 s): a call that spins on a lock its own thread holds, or loops forever')]
@@ -984,7 +1019,7 @@ def check_T2(pid, tier, seed):
                traces_validated_against_impl=len([r for r in res if r.get('replayed')]),
                events_replayed=sum(r.get('nevents', 0) for r in res), context_switches=sum(r.get('switches', 0) for r in res),
                linearizable_histories=len([r for r in res if r.get('linearizable')]), corpus_cases=ncorpus,
-               directed_schedules=len(dres), sweep_schedules=nsw, sequential_locked_section_scripts=len(seq_res),
+               directed_schedules=len(dres), sweep_schedules=nsw, locked_table_move_checks=ltm_n, sequential_locked_section_scripts=len(seq_res),
                runs_checked_against_hb_model=len([r for r in res if r.get('mem')]), bucket_accesses_checked=sum((r.get('mem') or {}).get('naccess', 0) for r in res),
                known_findings=sorted(known_hits.keys()), gen_changed=changed)
     write_evidence(pid, tier, seed, cov, time.time() - t0, violations, TRUSTED_BASE)
